@@ -49,7 +49,7 @@ def flag_guard(F, R):
             n += 1
             R.ob('C15.flag-guard', '%s|%s|reviewed-site' % (b.path, what), b.path in REVIEWED_DISCONNECT_SITES,
                  'a DISCONNECT packet is constructed at a site that has not been reviewed for the at-most-once flag', b.loc(bi))
-    R.floor('C15.flag-guard', 'DISCONNECT construction sites', n, 6)
+    R.floor('C15.flag-guard', 'DISCONNECT construction sites', n, 3)
     # 1. close()
     b = F.one(r'^v5::shared::MqttShared::close$')
     edges = sent_false_edges(b)
@@ -61,19 +61,40 @@ def flag_guard(F, R):
     # 2. default control service: every return that may carry a packet
     cs = F.one(r'^<v5::default::ControlService<S, E> as ntex_service::Service<control::Control<E>>>::call::\{closure#0\}$')
     edges = sent_false_edges(cs)
-    R.ob('C15.flag-guard', 'v5::default::ControlService::call|test-and-set-sites', len(edges) == 2, 'found %d is_disconnect_sent() tests' % len(edges))
-    n_ret = 0
-    for bi, j, s in agg_sites(cs, r'^std::result::Result$', 'Ok'):
-        if s['lhs']['l'] != 0:
+    R.ob('C15.flag-guard', 'v5::default::ControlService::call|test-and-set-sites', len(edges) >= 1, 'found %d is_disconnect_sent() tests' % len(edges))
+    # path-sensitive (the answer may be assembled in one place after the decisions were taken): every returning path
+    # whose value is Ok(Some(packet)) carries the condition `is_disconnect_sent() == false`
+    from symex import skip_logging
+    se = SymEx(cs, F, loop_visits=1, max_paths=6000, call_model=skip_logging)
+    cpaths = [p for p in se.run() if p.end[0] == 'return']
+    R.ob('C15.flag-guard', 'v5::default::ControlService::call|paths-enumerated', not se.truncated and len(cpaths) >= 6, '%d paths (truncated=%s)' % (len(cpaths), se.truncated))
+    classes = {}
+    for p in cpaths:
+        ret = p.ret
+        if not (ret and ret[0] == 'agg' and ret[2] == 'Ok'):
             continue
-        og = Origin(cs).of_operand(s['rv']['fields'][0])
-        none_only = all(l[0] != 'agg' or l[1] == 'std::option::Option::None' for l in og) and any(l == ('agg', 'std::option::Option::None', l[2]) for l in og if l[0] == 'agg') and not any(l[0] in ('arg', 'call', 'resume') for l in og)
-        if none_only:
+        inner = ret[3].get('0')
+        if inner is None or (inner[0] == 'agg' and inner[2] == 'None'):
             continue
-        n_ret += 1
-        R.ob('C15.flag-guard', 'v5::default::ControlService::call|Ok(Some)|%s|after-test-and-set' % ret_label(cs, og), guarded(cs, bi, edges),
-             'the control service can hand a packet to the io dispatcher without passing the `is_disconnect_sent() == false` edge (second DISCONNECT / packet after DISCONNECT)', cs.loc(bi))
-    R.floor('C15.flag-guard', 'packet-carrying returns of ControlService::call', n_ret, 2)
+        if inner[0] == 'call' and 'FromResidual<std::option::Option<std::convert::Infallible>>' in inner[1]:
+            continue  # `opt?` on None
+        label = 'user-packet' if term_has(inner, 'ServiceCtx') else ('default-disconnect' if term_has(inner, 'Disconnect') or term_has(inner, 'disconnect') else 'other')
+        tested = False
+        for t, c in p.conds:
+            if term_has(t, 'is_disconnect_sent'):
+                val = (c != ('eq', 0))
+                tt_ = t
+                while tt_[0] == 'un' and tt_[1] == 'Not':
+                    val = not val
+                    tt_ = tt_[2]
+                if tt_[0] == 'call' and val is False:
+                    tested = True
+        classes.setdefault(label, []).append((tested, p))
+    for label, lst in sorted(classes.items()):
+        bad = [p for ok_, p in lst if not ok_]
+        R.ob('C15.flag-guard', 'v5::default::ControlService::call|Ok(Some)|%s|after-test-and-set' % label, not bad,
+             'the control service can hand a packet to the io dispatcher without passing the `is_disconnect_sent() == false` edge (second DISCONNECT / packet after DISCONNECT)', cs.loc(bad[0].blocks[-1]) if bad else None)
+    R.floor('C15.flag-guard', 'packet-carrying returns of ControlService::call', len(classes), 2)
     # 3. control_pkt
     for d in all_dispatchers(F):
         if d.ver != 'v5':
@@ -172,6 +193,10 @@ def after_peer(F, R):
         for t, c in p.conds:
             if term_has(t, 'is_disconnect_recv'):
                 recv = (c != ('eq', 0))
+                tt_ = t
+                while tt_[0] == 'un' and tt_[1] == 'Not':  # `!is_disconnect_recv()` materialised as a bool
+                    recv = not recv
+                    tt_ = tt_[2]
             if t[0] == 'discr' and term_has(t, 'Stop') and not term_has(t, 'ServiceCtx') and c == ('eq', proto_idx):
                 proto = True
         sig = (recv, proto)
@@ -243,7 +268,8 @@ def cause_code(F, R):
     pe = F.adts['error::ProtocolError']
     de = F.adts['error::DecodeError']
     rows = {}
-    for p in SymEx(b, F).run():
+    from symex import inline_pure
+    for p in SymEx(b, F, call_model=inline_pure(F)).run():
         if p.end[0] != 'return' or not p.ret or p.ret[0] != 'agg':
             continue
         rc = p.ret[3].get('reason_code')
